@@ -143,7 +143,10 @@ def mk_segy(path, data, ilines, xlines, dt_us=4000, t0=0, fmt=5, present=None, h
         spec.ilines = np.asarray(ilines)
         spec.xlines = np.asarray(xlines)
         spec.offsets = [0]
-        idx = [(i, x) for i in range(n_il) for x in range(n_xl)]
+        if sorting == 1:      # crossline-sorted file: the inline number varies fastest
+            idx = [(i, x) for x in range(n_xl) for i in range(n_il)]
+        else:
+            idx = [(i, x) for i in range(n_il) for x in range(n_xl)]
     else:
         idx = [(i, x) for i in range(n_il) for x in range(n_xl) if present[i, x]]
         spec.tracecount = len(idx)
